@@ -174,6 +174,75 @@ def not_implemented(rep):
 
 # ---------------------------------------------------------------------------------------
 
+def dispatch_contract(rep):
+    """D: the function built from a specification calls THE kernel of the requested kind with
+    (source column, group id) resp. (column, pointer, p_id) bound to the names of the specification --
+    every kind x every grouping level / pointer, on the real factory functions with recording stubs
+    in place of the kernels (the kernels themselves are verified separately)."""
+    from _gettsim import functions_loader as fl
+    from _gettsim.config import SUPPORTED_GROUPINGS
+
+    where = "src/_gettsim/functions_loader.py:527-774"
+    kinds = ("count", "sum", "mean", "max", "min", "any", "all")
+    calls = []
+    saved = {}
+
+    def stub(nm):
+        def f(*a, **kw):
+            calls.append((nm, a, kw))
+            return ("result-of", nm)
+
+        return f
+
+    names = [f"grouped_{k}" for k in kinds] + [f"{k}_by_p_id" for k in kinds]
+    try:
+        for nm in names:
+            if hasattr(fl, nm):
+                saved[nm] = getattr(fl, nm)
+                setattr(fl, nm, stub(nm))
+        for k in kinds:
+            for g in SUPPORTED_GROUPINGS:
+                spec = {"aggr": k} if k == "count" else {"aggr": k, "source_col": "verif_src"}
+                del calls[:]
+                try:
+                    f = fl._create_one_aggregate_by_group_func(f"verif_col_{g}", spec, {})
+                    args = list(inspect.signature(f).parameters)
+                    kw = {a: ("value-of", a) for a in args}
+                    out = f(**kw)
+                    want_args = (("value-of", f"{g}_id"),) if k == "count" else (("value-of", "verif_src"), ("value-of", f"{g}_id"))
+                    ok = len(calls) == 1 and calls[0][0] == f"grouped_{k}" and tuple(calls[0][1]) + tuple(calls[0][2].values()) == want_args and out == ("result-of", f"grouped_{k}")
+                    detail = f"arguments {args}; calls {[(c[0], c[1]) for c in calls]}"
+                except TypeError as ex:  # the factory's own signature changed: the contract no longer binds
+                    rep.ob(f"D {k} over {g}: contract binds to _create_one_aggregate_by_group_func", "unsupported", "exhaustive-run", 0, where, "binding", repr(ex))
+                    continue
+                except Exception as ex:  # noqa: BLE001
+                    ok, detail = False, repr(ex)
+                rep.ob(f"D {k} over {g}: the created function returns grouped_{k}(source, {g}_id)", "discharged" if ok else "refuted", "exhaustive-run", 0, where, "dispatch", detail if not ok else "")
+                if not ok:
+                    rep.violation(f"dispatch:group:{k}", f"aggregation spec {spec} for verif_col_{g}: {detail}; the definition is grouped_{k}", {"obligation": "D", "spec": spec, "detail": detail}, True)
+            spec = {"aggr": k, "p_id_to_aggregate_by": "verif_ptr"} if k == "count" else {"aggr": k, "source_col": "verif_src", "p_id_to_aggregate_by": "verif_ptr"}
+            del calls[:]
+            try:
+                f = fl._create_one_aggregate_by_p_id_func(spec, {})
+                args = list(inspect.signature(f).parameters)
+                out = f(**{a: ("value-of", a) for a in args})
+                want_args = (("value-of", "verif_ptr"), ("value-of", "p_id")) if k == "count" else (("value-of", "verif_src"), ("value-of", "verif_ptr"), ("value-of", "p_id"))
+                ok = len(calls) == 1 and calls[0][0] == f"{k}_by_p_id" and tuple(calls[0][1]) + tuple(calls[0][2].values()) == want_args and out == ("result-of", f"{k}_by_p_id")
+                detail = f"arguments {args}; calls {[(c[0], c[1]) for c in calls]}"
+            except TypeError as ex:
+                rep.ob(f"D {k} by p_id: contract binds to _create_one_aggregate_by_p_id_func", "unsupported", "exhaustive-run", 0, where, "binding", repr(ex))
+                continue
+            except Exception as ex:  # noqa: BLE001
+                ok, detail = False, repr(ex)
+            rep.ob(f"D {k} by p_id: the created function returns {k}_by_p_id(column, pointer, p_id)", "discharged" if ok else "refuted", "exhaustive-run", 0, where, "dispatch", detail if not ok else "")
+            if not ok:
+                rep.violation(f"dispatch:p_id:{k}", f"by-p_id aggregation spec {spec}: {detail}; the definition is {k}_by_p_id", {"obligation": "D", "spec": spec, "detail": detail}, True)
+    finally:
+        for nm, f in saved.items():
+            setattr(fl, nm, f)
+    rep.functions |= {"src/_gettsim/functions_loader.py:527 _create_one_aggregate_by_group_func", "src/_gettsim/functions_loader.py:670 _create_one_aggregate_by_p_id_func"}
+
+
 def annotation_table(rep):
     """T2 (shared with C05: a supplied aggregate column is converted by this annotation)"""
     from _gettsim import functions_loader as fl
@@ -654,6 +723,7 @@ def run(tier="quick", seed=0, jobs=16):
     join_ok = join_proof(rep)
     array_rules(rep)
     bg_array_rule(rep)
+    dispatch_contract(rep)
     not_implemented(rep)
     precedence(rep)
     failing = bounded(rep, tier)
